@@ -150,7 +150,7 @@ package main
 //@   call ReadHeaderInfo#1 given_after $result.1 == nil ==> $result.0 != nil && $result.0.fps >= 1 && $result.0.resX >= 0 && $result.0.resY >= 0 && $result.0.framesize >= 5
 //@   call ReadHeaderInfo#1 given_after $result.1 == nil ==> asiface("*headers.HeaderInfo", $result.0, "cptvframe.CameraSpec").FPS() == $result.0.fps && asiface("*headers.HeaderInfo", $result.0, "cptvframe.CameraSpec").ResX() == $result.0.resX && asiface("*headers.HeaderInfo", $result.0, "cptvframe.CameraSpec").ResY() == $result.0.resY
 //@   call LoadMotionConfig#1 assert [C11] $0 == conf && $1 == headerInfo.model
-//@   call LoadMotionConfig#1 given_after 0 <= conf.Recorder.MinSecs && conf.Recorder.MinSecs <= conf.Recorder.MaxSecs && conf.Recorder.PreviewSecs * headerInfo.fps + conf.Motion.TriggerFrames >= 1 && conf.Motion.FrameCompareGap >= 0 && conf.Motion.EdgePixels >= 0 && 2 * conf.Motion.EdgePixels <= headerInfo.resX && 2 * conf.Motion.EdgePixels <= headerInfo.resY && time.dsecs(conf.Throttler.BucketSize) >= 0.0
+//@   call LoadMotionConfig#1 given_after 0 <= conf.Recorder.MinSecs && conf.Recorder.MinSecs <= conf.Recorder.MaxSecs && conf.Recorder.PreviewSecs * headerInfo.fps + conf.Motion.TriggerFrames >= 1 && conf.Motion.FrameCompareGap >= 0 && conf.Motion.EdgePixels >= 0 && 2 * conf.Motion.EdgePixels < headerInfo.resX && 2 * conf.Motion.EdgePixels < headerInfo.resY && time.dsecs(conf.Throttler.BucketSize) >= 0.0
 //@   call frameParser#1 assert [C13,C11] $0 == headerInfo.brand && $1 == headerInfo.model
 //@   call NewCPTVFileRecorder#1 assert [C11] $0 == conf && ref($1) == headerInfo && $2 == headerInfo.brand && $3 == headerInfo.model && $4 == headerInfo.serial && $5 == headerInfo.firmware
 //@   call NewCPTVFileRecorder#2 assert [C11,C17] $0 == conf && ref($1) == headerInfo && $2 == headerInfo.brand && $3 == headerInfo.model && $4 == headerInfo.serial && $5 == headerInfo.firmware && conf.Recorder.ConstantRecorder
